@@ -329,6 +329,17 @@ class Timing:
             e = rets_in[0]
             if strip(e.value) != elem:
                 fail(r_scan, ctx, f, e.node, f"scan must return the scanned index itself; returns {show(e.value)}")
+            # dominance: the scan runs only after both guards have been passed (a guard placed after the loop lets a hint beyond the
+            # governing event answer from inside the scan)
+            for gname, g in atoms:
+                established = False
+                for a_, p_ in e.cond:
+                    v_ = g(a_)
+                    if v_ is not None and (p_ if v_ else not p_) is False:
+                        established = True
+                if not established:
+                    fail(r_guards, ctx, f, e.node, f"the scan's `return i` is not dominated by the guard `{gname}` -> ValueError: the guard must be "
+                                                   f"tested before the scan (path condition of the return: {cond_str(tuple((a, p) for a, p in e.cond if a[0] != 'inloop'))[:200]})")
             inner = [(a, p) for a, p in e.cond if a[0] != "inloop" and (a, p) not in (default.cond if default else ())]
             want = fcmp_atom("<", tick, ("attr", ("sub", EV, ("binop", "+", elem, ("const", 1))), "tick"))
             if len(inner) != 1 or want(inner[0][0]) != inner[0][1] or want(inner[0][0]) is None:
